@@ -43,6 +43,8 @@ var Regressions = func() []Regress {
 		{Decoder: "dot.Unmarshal", Input: []byte("digraph { subgraph s {a b} -> c; subgraph s {a b} -> d }")},
 		{Decoder: "dot.Unmarshal", Input: []byte("graph { {f g} -- {f g} }"), Note: "self edges hidden by the known-node defect"},
 		{Decoder: "dot.Parse", Input: []byte("digraph { a:n:zz -> b }"), Note: "invalid compass point silently dropped"},
+		{Decoder: "dot.Parse", Input: []byte("digraph { \"\\\\\n\" }"), Note: "escaped backslash before a newline taken for a line continuation"},
+		{Decoder: "dot.Parse", Input: []byte("digraph { \"\\\\\n\nb\" }"), Note: "the same, leaving a string that parses differently"},
 		{Decoder: "digraph6", Input: []byte("&~~C?????"), Note: "order 2^32: n*n wraps to 0"},
 		{Decoder: "graph6", Input: []byte("")},
 		{Decoder: "graph6", Input: []byte("~")},
